@@ -1,7 +1,97 @@
-//! C35 — not built yet.
-use lv_common::Ctx;
+//! C35 — The pruner only removes blocks that are safe to remove.
+//!
+//! `pruner-scenarios`: the real `Pruner` over a mocked `Daser` (`PrunerSim`), a recording `Store`
+//! wrapper and a recording `Blockstore` wrapper sharing one ordered call log (`pruner_sim.rs`).
+//! `daser-permission`: the real `Daser` (`DaserSim`) must never grant `want_to_prune(h)` while the
+//! sampling of `h` is in progress (the other half of the pruner/daser handshake the property anchors).
+use lv_common::prelude::*;
 
-pub fn run(_ctx: &mut Ctx) {
-    eprintln!("C35: check not built yet");
-    std::process::exit(2);
+use crate::daser_sim::{DaserRecipe, Mode, dstep_strategy, run_daser_scenario, width_strategy};
+use crate::pruner_sim::{Inconclusives, SimErr, pruner_recipe_strategy, run_pruner_scenario};
+
+fn permission_strategy(max_steps: usize) -> impl Strategy<Value = DaserRecipe> {
+    (
+        (any::<u64>(), 6u8..=48, 1u8..=4, 0u8..=3, 0u8..=6),
+        prop::collection::vec(width_strategy(false), 8..=30),
+        prop::collection::vec((0u8..3, 1u8..14), 1..=3),
+        prop::collection::vec(dstep_strategy(2, 1, 6, 1), 10..=max_steps),
+    )
+        .prop_map(|((seed, sw_h, limit, allowance, n_old), widths, layout, steps)| DaserRecipe {
+            seed,
+            sw_h,
+            limit,
+            allowance,
+            n_old,
+            widths,
+            layout,
+            pre_sampled_pct: 0,
+            connect_first: true,
+            steps,
+        })
+}
+
+pub fn run(ctx: &mut Ctx) {
+    ctx.assume("header times are placed relative to the wall clock in three age classes (older than both cutoffs, between them, newer than both) with margins of >= 1 hour around each cutoff, so the classification of a header against both windows is stable for the whole run");
+    ctx.assume("'borders an unsynced gap' = a neighbouring height (h-1 if h>1, or h+1) is neither stored nor pruned at the moment of the removal; stored/pruned/sampled/in-progress sets are the harness' model, changed only between settled points, and compared with the real store at the end of each scenario");
+    ctx.assume("the mocked daser answers WantToPrune(h) with false exactly while h is in its generated in-progress set (disjoint from sampled) and never starts a height it has granted; the CIDs demanded for a removal are the ones the real store held for the height immediately before remove_height");
+    ctx.assume("the pruner's cache refresh is keyed on the std Instant (not the paused tokio clock); scenarios include real pauses of 1..3 ms with 1 ms block time so that refreshes happen, the oracle must hold either way");
+    ctx.essential(&[
+        "removal-evaluated",
+        "pruning-window-smaller",
+        "pruning-window-larger",
+        "removed-older-than-both-windows",
+        "removed-sampled-inside-sampling-window",
+        "protected-edge-in-sampling-window",
+        "protected-unsampled-in-sampling-window",
+        "protected-in-progress",
+        "daser-refused",
+        "removed-unsampled-with-permission",
+        "removal-with-cids",
+        "held-answer-released",
+        "prune-granted",
+        "prune-refused",
+    ]);
+    ctx.set_shrink_iters(600);
+    let inc = Inconclusives::default();
+    let (cases, max_zone, max_steps) = match ctx.tier {
+        Tier::Quick => (1000u32, 30u8, 24usize),
+        Tier::Thorough => (20000, 60, 40),
+    };
+    ctx.proptest(
+        "pruner-scenarios",
+        "a scenario = chain whose header ages straddle both window cutoffs (0..N headers per age class) + 1..5 stored ranges with unsynced gaps + pre-pruned heights + sampled set + sampling metadata with CIDs present in the blockstore + in-progress set + pruning window smaller/larger than the sampling window + block time 1 ms..1 s + steps (advance, real pause, insert head/historical, mark sampled, start/stop sampling, hold/release the daser's answers); one evaluation per recorded remove_height; non-trivial iff the initial store holds at least one height that must NOT be removed (inside the pruning window, unsampled or edge inside the sampling window, or in progress); distinct by (scenario digest, height)",
+        cases,
+        move || pruner_recipe_strategy(max_zone, max_steps),
+        |r, obs| match run_pruner_scenario(r, obs) {
+            Ok(()) => Ok(()),
+            Err(SimErr::Fail(f)) => Err(f),
+            Err(SimErr::Inconclusive(why)) => {
+                inc.record(why);
+                obs.label("scenario-not-judged");
+                Ok(())
+            }
+        },
+    );
+    inc.report(ctx, "pruner-scenarios");
+    let inc2 = Inconclusives::default();
+    let (cases2, steps2) = match ctx.tier {
+        Tier::Quick => (300u32, 60usize),
+        Tier::Thorough => (5000, 100),
+    };
+    ctx.proptest(
+        "daser-permission",
+        "DaserSim schedules with frequent want_to_prune calls on stored heights; one evaluation per answered want_to_prune; all non-trivial; the real daser must not answer true while the sampling of the height is in progress",
+        cases2,
+        move || permission_strategy(steps2),
+        |r, obs| match run_daser_scenario(r, Mode { c35: true, ..Mode::default() }, obs) {
+            Ok(()) => Ok(()),
+            Err(SimErr::Fail(f)) => Err(f),
+            Err(SimErr::Inconclusive(why)) => {
+                inc2.record(why);
+                obs.label("scenario-not-judged");
+                Ok(())
+            }
+        },
+    );
+    inc2.report(ctx, "daser-permission");
 }
